@@ -1,4 +1,5 @@
 import HexProofs.Framework.Program
+import HexProofs.Framework.Gen.ProgramLifeTf2
 import HexProofs.Framework.Gen.ProgramLifeTf
 import HexProofs.Framework.Gen.ProgramMore
 import HexProofs.Framework.Gen.ProgramLife
@@ -648,5 +649,45 @@ theorem recalculate_eq_rowMajor_held_lifespan_tf_partial (k : Kind F) (name : St
 example := @LifeTfDemo.final_ne_batch_held
 example := @LifeTfDemo.progT_runs
 example := @LifeTfDemo.progT_runs_fill
+
+
+open Hex Hex.C01
+variable {F : Type} [PyF F]
+
+/-! ### lifespan combined with a timeframe: programs (HexProofs/Framework/Gen/ProgramLifeTf2.lean) -/
+
+/-- **C14 on a timeframe + lifespan manager, all 27 classes**: after any program over {append, calculate,
+calculate_index, purge, recalculate} whose abstract semantics is `some σ` the final `calculate()` EQUALS the batch run
+over the virtual collapsed stream `(resample tf σ.s).drop σ.e`, minus the `σ.d - σ.e` popped buckets; `purge()` gives the
+buckets held `(resample tf σ.s).drop σ.d` -/
+theorem C14_trees_lifespan_tf (k : Kind F) (name : String) (round : Nat) (hk : CoveredTreeX name k)
+    (tf : Int) (htf : 0 < tf) (life : Int) (init : List (Candle F)) (ops : List (Op F))
+    (hraw : RawTf (init ++ (ops.map Op.added).flatten)) (s₀ s : IndState F)
+    (h₀ : IndState.init (mkTop k name round) { tf := some tf, lifespan := some life } init = .ok s₀)
+    (hruns : Runs s₀ ops s) (σ : TState F)
+    (hsem : tfSem (TwinMgr.tf F tf htf) life (treeLook k name round) init ops = some σ) :
+    σ.s = init ++ (ops.map Op.added).flatten ∧ σ.e ≤ σ.d ∧
+    s.purge.mgr.candles = (resample tf σ.s).drop σ.d ∧
+    candlesOf s.calculate
+      = (candlesOf (runBatch (mkTop k name round) {} ((resample tf σ.s).drop σ.e))).map (·.drop (σ.d - σ.e)) :=
+  program_converges_lifespan_tf hk round tf htf life init ops hraw s₀ s h₀ hruns σ hsem
+
+/-- … with `timeframe_fill = True` -/
+theorem C14_trees_lifespan_tf_fill (k : Kind F) (name : String) (round : Nat) (hk : CoveredTreeX name k)
+    (tf : Int) (htf : 0 < tf) (life : Int) (init : List (Candle F)) (ops : List (Op F))
+    (hraw : RawTf (init ++ (ops.map Op.added).flatten)) (s₀ s : IndState F)
+    (h₀ : IndState.init (mkTop k name round) { tf := some tf, fill := true, lifespan := some life } init = .ok s₀)
+    (hruns : Runs s₀ ops s) (σ : TState F)
+    (hsem : tfSem (TwinMgr.fill F tf htf) life (treeLook k name round) init ops = some σ) :
+    σ.s = init ++ (ops.map Op.added).flatten ∧ σ.e ≤ σ.d ∧
+    s.purge.mgr.candles = (fillSpec tf σ.s).drop σ.d ∧
+    candlesOf s.calculate
+      = (candlesOf (runBatch (mkTop k name round) {} ((fillSpec tf σ.s).drop σ.e))).map (·.drop (σ.d - σ.e)) :=
+  program_converges_lifespan_tf_fill hk round tf htf life init ops hraw s₀ s h₀ hruns σ hsem
+
+example := @LifeTf2Demo.progT_sem
+example := @LifeTf2Demo.progT_sem_fill
+example := @LifeTf2Demo.progA_sem
+example := @LifeTf2Demo.progA_runs
 
 end Hex.C14
